@@ -207,14 +207,27 @@ def lib_case(rng):
         inputs = c["opts"]["inputs"]
     elif r < 0.7:
         inputs = [rng.choice(["a.b.yaml", "sub/c.yaml", "a.yaml", "./sub/../a.b.yaml"])]
-    return dict(c, lib={"roots": roots, "inputs": inputs}, meta={"kind": "lib:" + "+".join(roots)})
+    lib = {"roots": roots, "inputs": inputs}
+    kind = "lib:" + "+".join(roots)
+    if rng.random() < 0.25:
+        # a file is merged BEFORE the root is narrowed; afterwards the same path (directly, or through $parent of an
+        # in-root file) must be refused like any other path outside the root
+        outside = rng.choice(["../outside/decoy.yaml", "../secret.yaml", "{W}/outside/decoy.yaml"])
+        c["layout"]["root/uses.yaml"] = {"fmt": "yaml", "docs": [{"$parent": "../outside/decoy", "u": 1}]}
+        again = rng.choice([outside, "uses.yaml", "a.yaml", outside])
+        lib = {"actions": [{"input": outside}, {"root": rng.choice([".", "sub"])}, {"input": again}]}
+        kind = "lib:merge-then-root"
+    return dict(c, lib=lib, meta={"kind": kind})
 
 
 def run_lib_variants(case):
     W = mktemp_dir("verif-c18l-")
     try:
         c = with_real_paths(case, W)
-        lib = {"roots": [r.replace("{W}", W) for r in case["lib"]["roots"]], "inputs": [i.replace("{W}", W) for i in case["lib"]["inputs"]]}
+        if "actions" in case["lib"]:
+            lib = {"actions": [{k: v.replace("{W}", W) for k, v in a.items()} for a in case["lib"]["actions"]]}
+        else:
+            lib = {"roots": [r.replace("{W}", W) for r in case["lib"]["roots"]], "inputs": [i.replace("{W}", W) for i in case["lib"]["inputs"]]}
         out, mop = [], None
         for variant in ("A", "B", "gone"):
             for f in os.listdir(W):
@@ -228,10 +241,10 @@ def run_lib_variants(case):
                     lay.pop(dname, None)
             materialise(W, lay)
             cwd = os.path.join(W, "root")
-            g = run_go([{"op": "files", "id": 0, "dir": cwd, "roots": lib["roots"], "inputs": lib["inputs"]}]).get(0) or {}
+            g = run_go([dict({"op": "files", "id": 0, "dir": cwd}, **lib)]).get(0) or {}
             out.append({"variant": variant, "res": g})
             if variant == "A":
-                mop = {"op": "libfs", "entries": model_entries(W, lay), "cwd": cwd, "env": {}, "roots": lib["roots"], "inputs": lib["inputs"]}
+                mop = dict({"op": "libfs", "entries": model_entries(W, lay), "cwd": cwd, "env": {}}, **lib)
         return out, mop
     finally:
         shutil.rmtree(W, ignore_errors=True)
@@ -264,9 +277,10 @@ def evaluate_lib(rep, cases):
         d = None
         if a[0] == "bad":
             d = "implementation " + a[1]
-        elif not (a == b == g) and not (a[0] == b[0] == g[0] == "err"):
+        elif "actions" not in c["lib"] and not (a == b == g) and not (a[0] == b[0] == g[0] == "err"):
+            # (when a file was legitimately read before any root was set, the result may depend on it: the model decides)
             d = "library result depends on a file outside the root(s) set with SetRoot"
-        elif a[0] == "ok" and ("AAA" in str(a[1]) or "leak" in str(a[1])):
+        elif "actions" not in c["lib"] and a[0] == "ok" and ("AAA" in str(a[1]) or "leak" in str(a[1])):
             d = "content of a file outside the root reached the documents"
         elif "unmodelled" in m:
             d = None
